@@ -6,14 +6,19 @@
    bitvec.py on every run.  The spec side is Base/Word.v.
 
    Reading guide.  [run2 sebc OP a b] is the opcode arm of SEVM.run for a binary instruction with
-   `a` on top of the stack (sebc = options.smt_exp_by_const), [run1], [run3] likewise.  A stack
+   `a` on top of the stack (sebc = options.smt_exp_by_const), [run1], [run3] likewise: the arm body
+   regenerated from sevm.py on every run (Gen/GenWordOps.v: accessors pop/popi/top/topi, evaluation
+   order, receiver / arguments / abstraction functions of the method call, set_top / push; SEVM.arith;
+   bitwise()) executed by the interpreter [exec_arm] of Model/BitVecModel.v on the stack [a; b];
+   [run2s .. rest] is the same on the stack a :: b :: rest.  A stack
    word [val] is an int-backed / term-backed HalmosBitVec or a concrete / symbolic HalmosBool;
    the theorems quantify over all four representations of every operand, over every valuation
    (ev, eb) of the z3 variables, and over all operand values in [0, 2^256).  [denote] reads a
    z3 term by SMT-LIB semantics (Base/SmtBV.v) with the f_evm_* abstractions given their exact
    definitions.  `exists r, run.. = Ok r` is totality: no internal exception. *)
 From Coq Require Import ZArith List Bool.
-From HV Require Import Base.Word Base.SmtBV Model.PyInt Gen.GenBitvecGuards Model.BitVecModel Proofs.BitVecProofs.
+From HV Require Import Base.Word Base.SmtBV Model.PyInt Model.WordOpsIR Gen.GenBitvecGuards Gen.GenWordOps
+  Model.BitVecModel Proofs.BitVecProofs.
 Import ListNotations.
 Open Scope Z_scope.
 
@@ -156,7 +161,7 @@ Print Assumptions C06_SIGNEXTEND.
 (* ... a symbolic index is rejected (NotConcreteError, by design), never answered wrongly *)
 Theorem C06_SIGNEXTEND_symbolic_index_rejected : forall sebc a b t,
   popi a = Sv t -> run2 sebc SIGNEXTEND a b = Err ENotConcrete.
-Proof. exact run_signextend_symbolic. Qed.
+Proof. exact P_SIGNEXTEND_symbolic. Qed.
 Print Assumptions C06_SIGNEXTEND_symbolic_index_rejected.
 
 (* totality of every binary instruction, in every mix of operand representations *)
@@ -244,7 +249,7 @@ Print Assumptions C06_fast_agree3.
    with the unreduced lhs ** rhs the measure is rhs * bits(lhs) and this statement is false *)
 Theorem C06_prompt_EXP : forall a e, 0 <= a < 2 ^ 256 -> 0 <= e < 2 ^ 256 ->
   exp_work 256 (Cv a) (Cv e) <= 514 /\
-  exists r, bv_exp 256 true true 2 (Cv a) (Cv e) = Ok r /\ bv_den (fun _ => 0) (fun _ => false) r = (a ^ e) mod 2 ^ 256.
+  exists r, bv_exp 256 (Some Fexp) (Some Fmul) 2 (Cv a) (Cv e) = Ok r /\ bv_den (fun _ => 0) (fun _ => false) r = (a ^ e) mod 2 ^ 256.
 Proof. exact P_prompt_EXP. Qed.
 Print Assumptions C06_prompt_EXP.
 
@@ -267,17 +272,44 @@ Theorem C06_py_pow3 : forall a e m, 0 < m -> 0 <= e -> py_pow3 a e m = (a ^ e) m
 Proof. exact (py_pow3_spec (fun _ => 0) (fun _ => false)). Qed.
 Print Assumptions C06_py_pow3.
 
+(* stack discipline: on a stack a :: b :: rest (a :: rest, a :: b :: c :: rest) the instruction
+   consumes exactly its operands and leaves exactly one word on the untouched rest; result, errors and
+   the path constraints appended do not depend on the rest *)
+Theorem C06_stack_frame2 : forall sebc o a b rest,
+  match run2s sebc o a b rest with
+  | Ok s => exists r, run2 sebc o a b = Ok r /\ stk s = r :: rest /\ pth s = arith_axioms sebc o a b
+  | Err e => run2 sebc o a b = Err e
+  end.
+Proof. exact P_frame2. Qed.
+Print Assumptions C06_stack_frame2.
+
+Theorem C06_stack_frame1 : forall o a rest,
+  match run1s o a rest with
+  | Ok s => exists r, run1 o a = Ok r /\ stk s = r :: rest /\ pth s = []
+  | Err e => run1 o a = Err e
+  end.
+Proof. exact P_frame1. Qed.
+Print Assumptions C06_stack_frame1.
+
+Theorem C06_stack_frame3 : forall o a b c rest,
+  match run3s o a b c rest with
+  | Ok s => exists r, run3 o a b c = Ok r /\ stk s = r :: rest /\ pth s = []
+  | Err e => run3 o a b c = Err e
+  end.
+Proof. exact P_frame3. Qed.
+Print Assumptions C06_stack_frame3.
+
 (* the constraints SEVM.arith appends next to a symbolic DIV / MOD result are valid under the
    exact definitions of the abstractions (they never cut off a real behaviour) *)
-Theorem C06_axioms_valid : forall ev eb o a b c,
+Theorem C06_axioms_valid : forall ev eb sebc o a b c,
   in_word (denote ev eb a) -> in_word (denote ev eb b) ->
-  In c (arith_axioms o a b) -> beval ev eb c = true.
+  In c (arith_axioms sebc o a b) -> beval ev eb c = true.
 Proof. exact P_axioms. Qed.
 Print Assumptions C06_axioms_valid.
 
 (* size-generic method lemmas (HalmosBitVec at any size n; these back the 264- / 512-bit widening
    and the exhaustive size-8 correspondence run) *)
-Theorem C06_method_mul : forall ev eb n abs a b, 0 < n ->
+Theorem C06_method_mul : forall ev eb n abs a b, abs = Some Fmul \/ abs = None -> 0 < n ->
   0 <= bv_den ev eb a < 2 ^ n -> 0 <= bv_den ev eb b < 2 ^ n ->
   bv_den ev eb (bv_mul n abs a b) = (bv_den ev eb a * bv_den ev eb b) mod 2 ^ n.
 Proof. exact bv_mul_den. Qed.
@@ -285,14 +317,14 @@ Print Assumptions C06_method_mul.
 
 Theorem C06_method_div : forall ev eb n a b, 0 < n ->
   0 <= bv_den ev eb a < 2 ^ n -> 0 <= bv_den ev eb b < 2 ^ n ->
-  exists r, bv_div n true a b = Ok r /\
+  exists r, bv_div n (Some Fudiv) a b = Ok r /\
     bv_den ev eb r = if bv_den ev eb b =? 0 then 0 else bv_den ev eb a / bv_den ev eb b.
 Proof. exact bv_div_den. Qed.
 Print Assumptions C06_method_div.
 
 Theorem C06_method_mod : forall ev eb n a b, 0 < n ->
   0 <= bv_den ev eb a < 2 ^ n -> 0 <= bv_den ev eb b < 2 ^ n ->
-  exists r, bv_mod n true a b = Ok r /\
+  exists r, bv_mod n (Some Furem) a b = Ok r /\
     bv_den ev eb r = if bv_den ev eb b =? 0 then 0 else bv_den ev eb a mod bv_den ev eb b.
 Proof. exact bv_mod_den. Qed.
 Print Assumptions C06_method_mod.
@@ -311,7 +343,7 @@ Print Assumptions C06_method_lshr.
 
 Theorem C06_method_sdiv : forall ev eb n a b, 1 < n ->
   0 <= bv_den ev eb a < 2 ^ n -> 0 <= bv_den ev eb b < 2 ^ n ->
-  exists r, bv_sdiv n true a b = Ok r /\
+  exists r, bv_sdiv n (Some Fsdiv) a b = Ok r /\
     bv_den ev eb r = if bv_den ev eb b =? 0 then 0
                      else (Z.quot (bvsigned n (bv_den ev eb a)) (bvsigned n (bv_den ev eb b))) mod 2 ^ n.
 Proof. exact bv_sdiv_den. Qed.
@@ -320,7 +352,7 @@ Print Assumptions C06_method_sdiv.
 (* with abstraction=None (never passed by sevm.py) the methods are NOT exact: latent *)
 Theorem C06_method_div_noabs_refuted :
   exists ev eb a b r, 0 <= bv_den ev eb a < 2 ^ 256 /\ 0 <= bv_den ev eb b < 2 ^ 256 /\
-    bv_div 256 false a b = Ok r /\
+    bv_div 256 None a b = Ok r /\
     bv_den ev eb r <> evm_div (bv_den ev eb a) (bv_den ev eb b).
 Proof. exact div_noabs_latent. Qed.
 Print Assumptions C06_method_div_noabs_refuted.
